@@ -830,7 +830,7 @@ static struct expr *
 builtinfunc(struct scope *s, enum builtinkind kind)
 {
 	struct expr *e, *toeval;
-	struct type *t;
+	struct type *t, *other;
 	struct member *m;
 	char *name;
 	unsigned long long offset;
@@ -880,8 +880,13 @@ builtinfunc(struct scope *s, enum builtinkind kind)
 		break;
 	case BUILTINTYPESCOMPATIBLEP:
 		t = typename(s, NULL, NULL);
+		if (!t)
+			error(&tok.loc, "expected type name");
 		expect(TCOMMA, "after type name");
-		e = mkconstexpr(&typeint, typecompatible(t, typename(s, NULL, NULL)));
+		other = typename(s, NULL, NULL);
+		if (!other)
+			error(&tok.loc, "expected type name");
+		e = mkconstexpr(&typeint, typecompatible(t, other));
 		break;
 	case BUILTINUNREACHABLE:
 		e = mkexpr(EXPRBUILTIN, &typevoid, NULL);
